@@ -260,7 +260,8 @@ class C13(Check):
             res.extra["states"] = len(seen)
             res.extra["transitions"] = ntrans
             res.extra["traces"] = nval
-            res.counters["bfs_max_depth"] = max(len(p) for p in seen.values())
+            res.counters["bfs_objects"] += 1
+            res.counters["bfs_depth_sum"] += max(len(p) for p in seen.values())
             res.nontrivial.add(hash((tuple(conds), cfg, weakly, "bfs")))
             res.samples.append({"base": case0["conds"], "config": cfg, "bfs_states": len(seen), "bfs_transitions": ntrans,
                                 "max_depth": max(len(p) for p in seen.values()), "validated_unmerged_sequences": nval})
